@@ -656,6 +656,20 @@ class Translator:
                 fail(s, "statement")
         return out
 
+    def definitely(self, stmts):
+        """Names assigned on every path through the statement list."""
+        out = []
+        for s in stmts:
+            if isinstance(s, ast.If):
+                a, b = self.definitely(s.body), self.definitely(s.orelse)
+                new = [x for x in a if x in b]
+            else:
+                new = self.assigned([s])
+            for x in new:
+                if x not in out:
+                    out.append(x)
+        return out
+
     def always_returns(self, stmts):
         if not stmts:
             return False
@@ -765,7 +779,8 @@ class Translator:
             # assignment-only conditional: join the assigned variables
             names_a = self.assigned(s.body)
             names_b = self.assigned(s.orelse)
-            names = [x for x in names_a + names_b if (x in names_a and x in names_b) or x in env]
+            def_a, def_b = self.definitely(s.body), self.definitely(s.orelse)
+            names = [x for x in names_a + names_b if (x in def_a and x in def_b) or x in env]
             names = list(dict.fromkeys(names))
             used_later = self.names_used(rest)
             names = [x for x in names if x in used_later or True]
